@@ -146,21 +146,46 @@ func cliExit(r *Run) {
 	r.Probe("state:" + state)
 	recPaths := w.RecoveryPaths()
 	capacity := w.R // recovery blocks (PAR2) / volumes (PAR1)
-	garble := func(i int) {
-		if t.Bool(1, 2, "garbage-not-delete") {
-			g := expandContent(ckRandom, t.Draw64(0, "gseed"), len(w.Files[i].Data)+1, 4)
-			w.Disk.Put(w.Path(i), g)
-			r.Logf("state: %q replaced by garbage", w.Files[i].Name)
-		} else {
-			w.Disk.Remove(w.Path(i))
-			r.Logf("state: %q deleted", w.Files[i].Name)
-		}
-	}
 	sliceCount := func(i int) int {
 		if par1Set {
 			return 1
 		}
 		return (len(w.Files[i].Data) + w.S - 1) / w.S
+	}
+	// garble damages file i and returns how much recovery capacity the
+	// damage costs (slices for PAR2, files for PAR1): a deleted or
+	// replaced file costs all of it, bytes appended or prepended to a
+	// PAR2 file cost nothing (every slice is still there) but the file
+	// is wrong all the same
+	garble := func(i int) int {
+		switch t.Pick([]int{3, 3, 1, 1}, "garble-kind") {
+		case 0:
+			w.Disk.Remove(w.Path(i))
+			r.Logf("state: %q deleted", w.Files[i].Name)
+		case 1:
+			g := expandContent(ckRandom, t.Draw64(0, "gseed"), len(w.Files[i].Data)+1, 4)
+			w.Disk.Put(w.Path(i), g)
+			r.Logf("state: %q replaced by garbage", w.Files[i].Name)
+		case 2:
+			cur, _ := w.Disk.Get(w.Path(i))
+			g := expandContent(ckRandom, t.Draw64(0, "gseed"), 1+t.Draw(2*w.S+5, "applen"), 4)
+			w.Disk.Put(w.Path(i), append(append([]byte(nil), cur...), g...))
+			r.Logf("state: %d bytes appended to %q", len(g), w.Files[i].Name)
+			r.Probe("damage:appended-bytes")
+			if !par1Set {
+				return 0
+			}
+		case 3:
+			cur, _ := w.Disk.Get(w.Path(i))
+			g := expandContent(ckRandom, t.Draw64(0, "gseed"), 1+t.Draw(2*w.S+5, "prelen"), 4)
+			w.Disk.Put(w.Path(i), append(g, cur...))
+			r.Logf("state: %d bytes prepended to %q", len(g), w.Files[i].Name)
+			r.Probe("damage:prepended-bytes")
+			if !par1Set {
+				return 0
+			}
+		}
+		return sliceCount(i)
 	}
 	switch state {
 	case "repairable":
@@ -169,22 +194,20 @@ func cliExit(r *Run) {
 		perm := drawPerm(r, len(w.Files))
 		for _, i := range perm {
 			if used+sliceCount(i) <= capacity {
-				garble(i)
-				used += sliceCount(i)
+				used += garble(i)
 				if t.Bool(1, 2, "stop") {
 					break
 				}
 			}
 		}
-		if used == 0 {
+		if w.AllIntact() {
 			state = "intact"
 		}
 	case "unrepairable":
 		used := 0
 		perm := drawPerm(r, len(w.Files))
 		for _, i := range perm {
-			garble(i)
-			used += sliceCount(i)
+			used += garble(i)
 			if used > capacity {
 				break
 			}
@@ -195,7 +218,7 @@ func cliExit(r *Run) {
 				w.Disk.Remove(p)
 			}
 			r.Logf("state: all recovery files deleted")
-			if used == 0 {
+			if w.AllIntact() {
 				state = "intact"
 			}
 		}
